@@ -30,7 +30,7 @@ def regex_shape(pattern: str):
 
 def check_python(report):
     r1 = report.rule("C19.1", "one PATH_ARG_RE over one resource_path feeds args, format string and parsing regex", floor=4)
-    r2 = report.rule("C19.2", "path_regex_str: ^ + literal-preserving substitution + $, named lazy ANY+ groups, wildcard special case", floor=4)
+    r2 = report.rule("C19.2", "path_regex_str: ^ + escaped literals interleaved with named lazy ANY+ groups + $, wildcard special case", floor=4)
     m = pm()
     mt = m.cls("gapic.schema.wrappers.MessageType")
     p = mt.module.path
@@ -69,28 +69,69 @@ def check_python(report):
                 r2.violation(p, c.lineno, f"path_regex_str: {ast.unparse(c)}",
                              "zip() over the literal/name slices of a regex split stops at the shorter list: the literal text after the last "
                              "variable is dropped, so patterns ending in a literal (`users/{user}/profile`) parse strings they must reject")
-    node, b = find_match("'^' + self.PATH_ARG_RE.sub(_ANYF_, self.resource_path or '') + '$'", fn)
     r2.instance("construction")
-    if node is None:
+    old_node, _ = find_match("'^' + self.PATH_ARG_RE.sub(_ANYF_, self.resource_path or '') + '$'", fn)
+    if old_node is not None:
+        r2.violation(p, old_node.lineno, "path_regex_str: PATH_ARG_RE.sub over the raw pattern",
+                     "the literal text of the pattern is copied into the regex unescaped: a `.` delimiter (permitted by AIP-4231, e.g. "
+                     "`as/{a}.{b}`) matches any character, so `as/x-y`, which does not match the pattern, parses to {'a': 'x', 'b': 'y'} instead of {}")
+        return
+    node, b = find_match("'^' + ''.join(_ANYGEN_) + '$'", fn)
+    gen = None
+    if node is not None:
+        gen = [g for g in ast.walk(node) if isinstance(g, ast.GeneratorExp)]
+        gen = gen[0] if len(gen) == 1 else None
+    if gen is None:
         if not r2.violations:
             raise core.AnalysisError("C19.2", "MessageType.path_regex_str",
-                                     "construction is not '^' + PATH_ARG_RE.sub(...) + '$' and matches no known defective idiom: the rule cannot judge it")
+                                     "construction is not '^' + ''.join(<escaped literal | named group> over PATH_ARG_RE.split(...)) + '$' and matches "
+                                     "no known defective idiom: the rule cannot judge it")
         return
     r2.ok()
-    sub_call = [c for c in calls(node) if ast.unparse(c.func) == "self.PATH_ARG_RE.sub"][0]
-    repl = sub_call.args[0]
+    g0 = gen.generators[0]
+    bt = pmatch("(_I_, _P_)", g0.target)
+    bi = pmatch("enumerate(_PARTS_)", g0.iter)
+    r2.need(len(gen.generators) == 1 and not g0.ifs and bt is not None and bi is not None, "path_regex_str: for i, part in enumerate(parts) (unfiltered)")
+    I, P, PARTS = bt["_I_"], bt["_P_"], bi["_PARTS_"]
+    src = [n for n in ast.walk(fn) if isinstance(n, ast.Assign) and ast.unparse(n.targets[0]) == PARTS]
+    r2.instance("literal and variable pieces come from one split of the resource path")
+    r2.check(len(src) == 1 and pmatch("self.PATH_ARG_RE.split(self.resource_path or '')", src[0].value) is not None, p, gen.lineno, f"{PARTS} = ...",
+             "the pieces must be PATH_ARG_RE.split(resource_path): with its single capture group the list alternates literal, name, literal, ... "
+             "and ends with the trailing literal")
+    elt = gen.elt
+    r2.need(isinstance(elt, ast.IfExp), "path_regex_str: <group> if i % 2 else <escaped literal>")
+    t = ast.unparse(elt.test)
+    if t in (f"{I} % 2", f"{I} % 2 == 1", f"{I} % 2 != 0"):
+        grp, lit = elt.body, elt.orelse
+    elif t in (f"{I} % 2 == 0", f"not {I} % 2"):
+        grp, lit = elt.orelse, elt.body
+    else:
+        raise core.AnalysisError("C19.2", "MessageType.path_regex_str", f"parity test `{t}` not recognised")
+    r2.instance("literals are regex-escaped")
+    r2.check(pmatch(f"re.escape({P})", lit) is not None, p, lit.lineno, f"literal arm: {ast.unparse(lit)}",
+             "the literal text between variables must go through re.escape: delimiters such as `.` may only match themselves, otherwise a string "
+             "that does not match the pattern parses to a non-empty dict")
     group_tmpl = None
-    if isinstance(repl, ast.Lambda):
-        bb = pmatch("_T_.format(name=_M_.groups()[0])", repl.body) or pmatch("_T_.format(name=_M_.group(1))", repl.body)
-        for c in ast.walk(repl.body):
-            if isinstance(c, ast.Constant) and isinstance(c.value, str) and "(?P<" in c.value:
-                group_tmpl = c.value
-        ok = "groups()[0]" in ast.unparse(repl.body) or "group(1)" in ast.unparse(repl.body)
-        r2.instance("replacement names the captured variable")
-        r2.check(ok and group_tmpl is not None and "{name}" in group_tmpl, p, repl.lineno, ast.unparse(repl)[:120],
-                 "each variable must become a group named by the captured variable name")
-    elif isinstance(repl, ast.Constant) and isinstance(repl.value, str):
-        group_tmpl = repl.value.replace("\\g<1>", "{name}")
+    bb = pmatch(f"_ANYT_.format(name={P})", grp)
+    if bb is not None:
+        try:
+            group_tmpl = ast.literal_eval(bb["_ANYT_"])
+        except Exception:
+            group_tmpl = None
+    elif isinstance(grp, ast.JoinedStr):
+        parts_ = []
+        for v in grp.values:
+            if isinstance(v, ast.Constant):
+                parts_.append(v.value)
+            elif isinstance(v, ast.FormattedValue) and ast.unparse(v.value) == P:
+                parts_.append("{name}")
+            else:
+                parts_ = None
+                break
+        group_tmpl = "".join(parts_) if parts_ else None
+    r2.instance("replacement names the captured variable")
+    r2.check(isinstance(group_tmpl, str) and group_tmpl.startswith("(?P<{name}>"), p, grp.lineno, ast.unparse(grp)[:120],
+             "each variable must become a group named by the captured variable name")
     r2.need(group_tmpl is not None, "replacement template of the substitution")
     shape = regex_shape(group_tmpl.replace("{name}", "x"))
     r2.instance({"group": group_tmpl})
@@ -103,10 +144,11 @@ def check_python(report):
     r2.check(ok, p, fn.lineno, group_tmpl,
              "the group body must be a lazy repeat (>= 1) of any character: lazy so that literal separators other than '/' split "
              "segments correctly, any-character so that a trailing `**` variable may contain '/', at least one so empty segments do not match")
-    wc = [n for n in ast.walk(fn) if isinstance(n, ast.If) and pmatch("_R_ == '^*$'", n.test) is not None]
+    wc = [n for n in ast.walk(fn) if isinstance(n, ast.If) and (pmatch("self.resource_path == '*'", n.test) is not None
+                                                              or pmatch("_R_ == '^\\\\*$'", n.test) is not None)]
     r2.instance("wildcard")
     r2.check(len(wc) == 1 and any(isinstance(s, ast.Assign) and ast.unparse(s.value) == "'^.*$'" for s in wc[0].body), p, fn.lineno,
-             "wildcard special case", "the pattern `*` must parse with ^.*$ (the bare `^*$` is not a valid regex)")
+             "wildcard special case", "the pattern `*` must parse with ^.*$ (the test must be on the raw pattern or on the ESCAPED regex `^\\*$`)")
     rets = [n for n in ast.walk(fn) if isinstance(n, ast.Return)]
     r2.check(len(rets) == 1 and isinstance(rets[0].value, ast.Name), p, fn.lineno, "return", "the built regex is returned")
 
